@@ -44,6 +44,33 @@ Section RrBridge.
 
   Lemma nth_error_lt A (l : list A) i a : nth_error l i = Some a -> (i <? List.length l) = true.
   Proof. intros E. apply Nat.ltb_lt. apply nth_error_Some. congruence. Qed.
+  Lemma nth_error_in A (l : list A) i a : nth_error l i = Some a -> i < List.length l.
+  Proof. intros E. apply nth_error_Some. congruence. Qed.
+
+  (* ---- tactics that do not look at the SHAPE of the generated code ----
+     cmp_norm: every comparison of naturals in the goal that the Prop facts of the context decide is replaced by its
+     value, whatever its spelling (a <=? b, negb (b <? a), the operands swapped, ...); one first case-splits on the
+     FACT (Nat.eq_dec, Nat.le_gt_cases ...), never on a boolean expression of the generated code. *)
+  Ltac cmp_norm :=
+    repeat match goal with
+           | |- context [?a <=? ?b] => first [ rewrite (proj2 (Nat.leb_le a b)) by lia | rewrite (proj2 (Nat.leb_gt a b)) by lia ]
+           | |- context [?a <? ?b] => first [ rewrite (proj2 (Nat.ltb_lt a b)) by lia | rewrite (proj2 (Nat.ltb_ge a b)) by lia ]
+           | |- context [?a =? ?b] => first [ rewrite (proj2 (Nat.eqb_eq a b)) by lia | rewrite (proj2 (Nat.eqb_neq a b)) by lia ]
+           end; cbn [negb andb orb].
+  (* the facts about cells of vectors / nodes of the index that are in the context (as equations nth_error .. = ..,
+     assoc .. = ..) replace every access to these cells, wherever it stands and however often it is repeated *)
+  Ltac rw1 :=
+    match goal with
+    | H : nth_error _ _ = _ |- _ => rewrite H
+    | H : assoc _ _ = _ |- _ => rewrite H
+    end.
+  Ltac norm := repeat (first [ progress (cbn [bind negb andb orb fst snd mit_eqb]; proj) | rw1 | progress cmp_norm ]).
+  (* both programs are now at the erasure of the index node (or both have stopped) *)
+  Ltac tail :=
+    try match goal with |- context [index_erase ?a ?b] => destruct (index_erase a b) end; simpl; auto.
+  (* the index lookup: split on the FACT assoc k ix = Some idx / None; then `it == end()`, `it != end()`,
+     `end() != it`, an early return on the miss ... all reduce by computation *)
+  Ltac lookup A := unfold mit_find, mit_second; unf; proj; cbn [mit_eqb negb bind]; rewrite ?A; cbn [mit_eqb negb bind].
 
   (* ---- do_erase ---- *)
   Lemma g_do_erase_ok (s : gst) (i : nat) :
@@ -51,30 +78,27 @@ Section RrBridge.
   Proof.
     destruct s as [l g]. unfold g_do_erase, l_do_erase. unf. proj.
     unfold vref, vswap, vset, vget, usub.
-    destruct (nth_error (l_elems l) i) as [e|] eqn:N; [|simpl; auto]. cbn [bind]. rewrite N. cbn [bind].
-    destruct (Nat.eqb_spec (l_end l) 0) as [Z|NZ].
-    { rewrite Z. simpl. auto. }
-    destruct (Nat.ltb_spec (l_end l) 1) as [L1|_]; [lia|]. cbn [bind]. proj.
-    set (last := l_end l - 1) in *.
-    destruct (Nat.eqb_spec (e_pos e) last) as [Ep|Np]; cbn [negb bind]; proj.
-    - destruct (Nat.eqb_spec (l_end l) 0); [lia|]. cbn [bind]. proj. rewrite ?N. cbn [bind].
-      destruct (index_erase (l_index l) (e_keyed e)); simpl; auto.
-    - rewrite ?N. cbn [bind]. destruct (Nat.ltb_spec (l_end l) 1) as [L1|_]; [lia|]. cbn [bind]. fold last.
-      destruct (nth_error (l_open l) (e_pos e)) as [a|] eqn:Na; [|simpl; auto]. cbn [bind].
-      destruct (nth_error (l_open l) last) as [b|] eqn:Nb; [|simpl; auto]. cbn [bind]. proj.
-      rewrite ?N. cbn [bind].
-      rewrite nth_error_upd_nth_neq by auto.
-      rewrite nth_error_upd_same by (apply nth_error_Some; congruence). cbn [bind].
-      destruct (nth_error (l_elems l) b) as [mv|] eqn:Nm; [|simpl; auto]. cbn [bind].
-      rewrite ?N, ?Nm. cbn [bind]. rewrite (nth_error_lt _ _ _ _ Nm). cbn [bind]. proj.
-      destruct (Nat.eqb_spec (l_end l) 0); [lia|]. cbn [bind]. proj.
-      assert (Q : exists e', nth_error (upd_nth b {| e_keyed := e_keyed mv; e_pos := e_pos e; e_val := e_val mv |} (l_elems l)) i = Some e'
-                             /\ e_keyed e' = e_keyed e).
-      { destruct (Nat.eq_dec i b) as [->|Nib].
-        - rewrite nth_error_upd_same by (apply nth_error_Some; congruence). eexists; split; [reflexivity|]. simpl. congruence.
-        - rewrite nth_error_upd_nth_neq by auto. eauto. }
-      destruct Q as (e' & Q1 & Q2). rewrite Q1. cbn [bind]. rewrite Q2.
-      destruct (index_erase (l_index l) (e_keyed e)); simpl; auto.
+    (* the cell element_idx *)
+    destruct (nth_error (l_elems l) i) as [e|] eqn:N; [|simpl; auto]. norm.
+    (* m_open_list_end - 1 *)
+    destruct (Nat.eq_dec (l_end l) 0) as [Z|NZ]; norm; [simpl; auto|].
+    (* is the element the last one of the open list? *)
+    destruct (Nat.eq_dec (e_pos e) (l_end l - 1)) as [Ep|Np]; norm; [tail|].
+    destruct (nth_error (l_open l) (e_pos e)) as [a|] eqn:Na; norm; [|simpl; auto].
+    destruct (nth_error (l_open l) (l_end l - 1)) as [b|] eqn:Nb; norm; [|simpl; auto].
+    (* after the swap the slot at the position of e is the one that was last *)
+    assert (Sw : nth_error (upd_nth (l_end l - 1) a (upd_nth (e_pos e) b (l_open l))) (e_pos e) = Some b).
+    { rewrite nth_error_upd_nth_neq by auto. apply nth_error_upd_same. eapply nth_error_in; eauto. }
+    norm.
+    destruct (nth_error (l_elems l) b) as [mv|] eqn:Nm; norm; [|simpl; auto].
+    pose proof (nth_error_in _ _ _ _ Nm) as Lb. norm.
+    (* the cell element_idx after the back-pointer fix-up: the same index iterator *)
+    assert (Q : exists e', nth_error (upd_nth b {| e_keyed := e_keyed mv; e_pos := e_pos e; e_val := e_val mv |} (l_elems l)) i = Some e'
+                           /\ e_keyed e' = e_keyed e).
+    { destruct (Nat.eq_dec i b) as [->|Nib].
+      - rewrite nth_error_upd_same by auto. eexists; split; [reflexivity|]. simpl. congruence.
+      - rewrite nth_error_upd_nth_neq by auto. eauto. }
+    destruct Q as (e' & Q1 & Q2). norm. rewrite ?Q2. tail.
   Qed.
 
   (* ---- do_prune: one draw from [0, m_open_list_end - 1], consumed only when the cache is not empty ---- *)
@@ -84,10 +108,10 @@ Section RrBridge.
          Ok (W l (if 0 <? l_end (rs_st s) then tl (rs_rng s) else rs_rng s))).
   Proof.
     destruct s as [l g]. unfold g_do_prune, l_do_prune. unf. proj.
-    destruct (Nat.ltb_spec 0 (l_end l)) as [P|P]; [|simpl; auto].
-    unfold usub, uniform_dist, rng_draw. destruct (Nat.ltb_spec (l_end l) 1) as [L1|_]; [lia|]. cbn [bind fst snd Nat.leb andb].
-    destruct (Nat.leb_spec (hd 0 g) (l_end l - 1)) as [D|D], (Nat.ltb_spec (hd 0 g) (l_end l)) as [D'|D']; try lia; [|simpl; auto].
-    cbn [bind]. callee (g_do_erase_ok (W l (tl g)) (hd 0 g)). proj. unfold bind. crush; finish.
+    unfold usub, uniform_dist, rng_draw.
+    destruct (Nat.eq_dec (l_end l) 0) as [Z|P]; norm; [simpl; auto|].
+    destruct (Nat.le_gt_cases (hd 0 g) (l_end l - 1)) as [D|D]; norm; [|simpl; auto].
+    callee (g_do_erase_ok (W l (tl g)) (hd 0 g)). proj. unfold bind. crush; finish.
   Qed.
 
   Lemma index_erase_keeps_absent (ix ix' : list (K * nat)) it k :
@@ -122,6 +146,16 @@ Section RrBridge.
     (forall a b, R a b -> req (f a) (g b)) -> req (bind x f) (bind y g).
   Proof. destruct x, y; simpl; intros E F; try contradiction; auto. Qed.
 
+  (* the cell idx of the vector exists (N : nth_error l idx = Some e0, L : idx < length l): every bounds-checked
+     access to that cell, in either program, wherever it stands and however many there are, is replaced by its value *)
+  Ltac vec N L :=
+    repeat (first [ rewrite N
+                  | rewrite nth_error_upd_same by (rewrite ?upd_nth_length; exact L)
+                  | rewrite upd_nth_length
+                  | rewrite (proj2 (Nat.ltb_lt _ _) L)
+                  | rewrite upd_nth_twice ];
+            cbn [bind]; proj).
+
   (* ---- do_insert (the key is not in the index: the call site do_insert_update has just looked it up) ---- *)
   Lemma g_do_insert_ok (s : gst) k v :
     assoc k (l_index (rs_st s)) = None ->
@@ -132,9 +166,10 @@ Section RrBridge.
     apply (req_bind_rel _ _ _ (fun (a : gst) (b : rrl K V * list nat) =>
              (a = W (fst b) (snd b) /\ assoc k (l_index (fst b)) = None) \/
              (l_elems (rs_st a) = [] /\ l_elems (fst b) = []))).
-    - (* the eviction, when the cache is full *)
+    - (* the eviction, when the cache is full: split on the FACT size() <= m_open_list_end, then the generated
+         condition reduces in any spelling *)
       unfold x_elems, x_end. proj.
-      destruct (Nat.leb_spec (List.length (l_elems l)) (l_end l)) as [Full|NFull]; [|left; auto].
+      destruct (Nat.le_gt_cases (List.length (l_elems l)) (l_end l)) as [Full|NFull]; cmp_norm; [|left; auto].
       callee (g_do_prune_ok (W l g)). proj. unfold bind.
       destruct (g_do_prune (W l g)) as [s1|], (l_do_prune true l (hd 0 g)) as [l1|] eqn:P; intros Q; try contradiction; auto.
       subst s1. proj. cbv beta iota. destruct (Nat.ltb_spec 0 (l_end l)) as [Pos|Z].
@@ -144,17 +179,13 @@ Section RrBridge.
         right. unfold l_do_prune in P. destruct (Nat.ltb_spec 0 (l_end l)); [lia|]. inversion P; subst l1. proj.
         assert (E : l_elems l = []) by (destruct (l_elems l); simpl in *; [auto|lia]). auto.
     - intros a [l1 g1] [[E A1]|[E1 E2]]; cbn [fst snd] in *; [subst a|]; unf; proj.
-      + unfold vref, vget, vset, umap_emplace, index_emplace. rewrite A1.
+      + unfold vref, vget, vset, umap_emplace, index_emplace. rewrite ?A1.
         destruct (nth_error (l_open l1) (l_end l1)) as [idx|] eqn:No; [|simpl; auto]. cbn [bind].
         destruct (List.length (l_index l1) <? l_cap l1); [|simpl; auto]. cbn [bind]. proj.
         destruct (nth_error (l_elems l1) idx) as [e0|] eqn:N.
-        2:{ apply nth_error_None in N. apply Nat.ltb_ge in N. rewrite N. simpl. auto. }
+        2:{ apply nth_error_None in N. apply Nat.ltb_ge in N. rewrite ?N. simpl. auto. }
         assert (L : idx < List.length (l_elems l1)) by (apply nth_error_Some; congruence).
-        cbn [bind]. rewrite N. cbn [bind]. rewrite (proj2 (Nat.ltb_lt _ _) L). cbn [bind]. proj.
-        rewrite nth_error_upd_same by auto. cbn [bind]. rewrite upd_nth_length, (proj2 (Nat.ltb_lt _ _) L). cbn [bind]. proj.
-        rewrite nth_error_upd_same by (rewrite upd_nth_length; auto). cbn [bind].
-        rewrite !upd_nth_length, (proj2 (Nat.ltb_lt _ _) L). cbn [bind]. proj.
-        rewrite !upd_nth_twice. reflexivity.
+        cbn [bind]. vec N L. reflexivity.
       + destruct a as [l0 g0]. proj. rewrite E1, E2. unfold vref, vget, vset, umap_emplace, index_emplace.
         destruct (nth_error (l_open l0) (l_end l0)); [|simpl]; cbn [bind];
           destruct (nth_error (l_open l1) (l_end l1)); cbn [bind]; try (simpl; auto; fail).
@@ -170,44 +201,39 @@ Section RrBridge.
     assoc k (l_index (rs_st s)) = Some idx ->
     req (g_do_update s (Some k) v) (do l <- l_do_update (rs_st s) idx v; Ok (W l (rs_rng s))).
   Proof.
-    destruct s as [l g]. proj. intros A. unfold g_do_update, l_do_update, mit_second, with_elems. unf. proj. rewrite A. cbn [bind].
+    destruct s as [l g]. proj. intros A. unfold g_do_update, l_do_update, with_elems. lookup A. proj.
     unfold vref, vget, vset.
-    destruct (nth_error (l_elems l) idx) as [e0|] eqn:N; [|simpl; auto]. cbn [bind]. rewrite N. cbn [bind].
-    rewrite (nth_error_lt _ _ _ _ N). cbn [bind]. reflexivity.
+    destruct (nth_error (l_elems l) idx) as [e0|] eqn:N; [|simpl; auto].
+    pose proof (nth_error_in _ _ _ _ N) as L. vec N L. reflexivity.
   Qed.
-
-  Lemma mit_find_some (ix : list (K * nat)) k :
-    negb (mit_eqb (mit_find ix k) None) = match assoc k ix with Some _ => true | None => false end.
-  Proof. unfold mit_find. destruct (assoc k ix); reflexivity. Qed.
 
   (* ---- do_insert_update ---- *)
   Lemma g_do_insert_update_ok (s : gst) k v a :
     req (g_do_insert_update s k v a)
         (do x <- l_ins true (rs_st s) k v a (rs_rng s); let '(l, b, g) := x in Ok (W l g, b)).
   Proof.
-    unfold g_do_insert_update, l_ins. rewrite mit_find_some. unfold mit_find, x_index.
-    destruct (assoc k (l_index (rs_st s))) as [idx|] eqn:A.
-    - destruct (a_upd a); [|destruct s; simpl; auto].
-      callee (g_do_update_ok s k idx v A). unfold bind. crush; finish.
-    - destruct (a_ins a); [|destruct s; simpl; auto].
-      callee (g_do_insert_ok s k v A). unfold bind. crush; finish.
+    unfold g_do_insert_update, l_ins.
+    destruct (assoc k (l_index (rs_st s))) as [idx|] eqn:A; lookup A.
+    - callee (g_do_update_ok s k idx v A). destruct (a_upd a); cbn [negb]; [|destruct s; simpl; auto].
+      unfold bind. crush; finish.
+    - callee (g_do_insert_ok s k v A). destruct (a_ins a); cbn [negb]; [|destruct s; simpl; auto].
+      unfold bind. crush; finish.
   Qed.
 
   (* ---- do_find ---- *)
   Lemma g_do_find_ok (s : gst) k : req (g_do_find s k) (do o <- l_find (rs_st s) k; Ok (s, o)).
   Proof.
-    unfold g_do_find, l_find. rewrite mit_find_some. unfold mit_find, mit_second, x_index, x_elems.
-    destruct (assoc k (l_index (rs_st s))) as [idx|] eqn:A; [|simpl; auto]. rewrite A. cbn [bind].
-    unfold vref, vget. destruct (nth_error (l_elems (rs_st s)) idx) as [e0|] eqn:N; [|simpl; auto]. cbn [bind].
-    rewrite N. simpl. auto.
+    unfold g_do_find, l_find.
+    destruct (assoc k (l_index (rs_st s))) as [idx|] eqn:A; lookup A; [|simpl; auto].
+    unfold vref, vget. destruct (nth_error (l_elems (rs_st s)) idx) as [e0|] eqn:N; norm; simpl; auto.
   Qed.
 
   (* ---- erase(key) ---- *)
   Lemma g_erase_ok (s : gst) k :
     req (g_erase s k) (do x <- l_erase true (rs_st s) k; let '(l, b) := x in Ok (W l (rs_rng s), b)).
   Proof.
-    unfold g_erase, l_erase. rewrite mit_find_some. unfold mit_find, mit_second, x_index.
-    destruct (assoc k (l_index (rs_st s))) as [idx|] eqn:A; [|destruct s; simpl; auto]. rewrite A. cbn [bind].
+    unfold g_erase, l_erase.
+    destruct (assoc k (l_index (rs_st s))) as [idx|] eqn:A; lookup A; [|destruct s; simpl; auto].
     callee (g_do_erase_ok s idx). unfold bind. crush; finish.
   Qed.
 
@@ -240,9 +266,9 @@ Section RrBridge.
       assert (G : forall l s n, req (do y <- foldM F l (s, n); let '(s', n') := y in Ok (rs_st s', n'))
                                     (l_erase_range true (rs_st s) l n)) end.
     { clear. induction l as [|k r IH]; intros s n; simpl; auto.
-      rewrite mit_find_some. unfold l_erase, mit_find, mit_second, x_index.
-      destruct (assoc k (l_index (rs_st s))) as [idx|] eqn:A; cbn [bind]; [|apply IH].
-      rewrite A. cbn [bind]. callee (g_do_erase_ok s idx).
+      unfold l_erase.
+      destruct (assoc k (l_index (rs_st s))) as [idx|] eqn:A; lookup A; [|apply IH].
+      callee (g_do_erase_ok s idx).
       destruct (g_do_erase s idx) as [s1|], (l_do_erase true (rs_st s) idx) as [l2|]; simpl; intros P; try contradiction; auto.
       subst. apply (IH (W l2 (rs_rng s))). }
     specialize (G l s 0). revert G.
